@@ -76,6 +76,23 @@ def programs(tier):
                                 add(("chain", mid, ("leaf", other)))
                         except IllTyped:
                             pass
+        # two transfers: start -> transfer -> one operation -> transfer (back or onwards) -> final operation with every option set
+        for dest in meprogs.ENGINES:
+            x = ("xfer", st, dest)
+            for l in ("calc d=a+b", "sel a>k", "proj -b", "dedup"):
+                mid = _apply(acts, l, x, None, 2)
+                if mid is None:
+                    continue
+                for dest2 in meprogs.ENGINES:
+                    if dest2 == dest:
+                        continue
+                    y = ("xfer", mid, dest2)
+                    add(y)
+                    for lab in unary_with_opts:
+                        for o in optsets:
+                            n4 = _apply(acts, lab, y, o, 4)
+                            if n4:
+                                add(n4)
     return out
 
 
